@@ -31,6 +31,11 @@
    for W = 62, the inverse laws exhaustively for W <= 12, and for W = 62 on the one-hot basis,
    the carry chains 2^k - 1 and seeded vectors.
 
+   Arrays: CallErrMat(o, layout, axis) = count_bit_errors of two 2 x 3 index arrays lying in memory in row-major
+   ("C") or column-major ("F", e.g. a transposed view) order, summed along an axis; `AxisLaw`: the counts are taken
+   position by position of the LOGICAL index whatever the layout (Dev.CountsInMemoryOrder: read in memory order,
+   written in row-major order).
+
    Modes:  "exh"   every v in 0 .. 2^W - 1  (W <= 12): calls b2g(v), g2b(v)
            "pairs" every pair (u, v) (W <= 6): additivity, err(u, v)
            "basis" W-bit (W = 62) one-hot, 2^k - 1, 2^k + 1, all-ones and NRand seeded vectors; err on
@@ -44,7 +49,7 @@ CONSTANTS W,       \* width in bits
           Shifts,  \* intended cascade of gray2binary
           NRand,   \* number of seeded vectors (mode "basis")
           Seed,
-          Dev      \* [G2BOnly16Bits, B2GShiftMissing, ErrCountsFirstOperand |-> BOOLEAN]
+          Dev      \* [G2BOnly16Bits, B2GShiftMissing, ErrCountsFirstOperand, CountsInMemoryOrder |-> BOOLEAN]
 
 Idx  == 1..W
 Zero == [k \in Idx |-> 0]
@@ -101,6 +106,26 @@ PairDomain ==
                          \cup {<<Trunc(RandVec(n), w), RandVec(n)>> : n \in 1..NRand, w \in Widths}
                          \cup {<<Trunc(RandVec(n), w), Trunc(RandVec(n + 1), 2 * w)>> : n \in 1..NRand, w \in Widths}
 
+(* ----------------------- bit errors of index ARRAYS, summed along an axis ------------------- *)
+\* count_bit_errors(first, second, axis) for 2 x 3 arrays.  The property speaks about the arrays position by
+\* position (logical index); `layout` says how the caller's arrays lie in memory ("C" row-major, "F" column-major,
+\* e.g. a transposed view) and must not matter.  axis = -1: total, 0: sum over rows, 1: sum over columns.
+Vec(n) == IF Mode = "basis" THEN RandVec(n) ELSE OfInt(n % (2 ^ W))
+MatU(o) == [i \in 1..2 |-> [j \in 1..3 |-> Vec(o + 3 * (i - 1) + j)]]
+MatV(o) == [i \in 1..2 |-> [j \in 1..3 |-> Vec(o + 11 + 5 * (i - 1) + 2 * j)]]
+CountAt(o, i, j) == Ham(MatU(o)[i][j], MatV(o)[i][j])
+AxisSums(cnt, axis) ==
+  CASE axis = -1 -> << cnt[1][1] + cnt[1][2] + cnt[1][3] + cnt[2][1] + cnt[2][2] + cnt[2][3] >>
+    [] axis = 0  -> [j \in 1..3 |-> cnt[1][j] + cnt[2][j]]
+    [] axis = 1  -> [i \in 1..2 |-> cnt[i][1] + cnt[i][2] + cnt[i][3]]
+\* as-is under Dev.CountsInMemoryOrder: the elements are READ in memory order but the counts are WRITTEN in row-major
+\* order - for a column-major operand the count stored at row-major position k belongs to the k-th element in memory
+CodeCount(o, layout, i, j) ==
+  IF Dev.CountsInMemoryOrder /\ layout = "F"
+  THEN LET k == 3 * (i - 1) + (j - 1) IN CountAt(o, (k % 2) + 1, (k \div 2) + 1)
+  ELSE CountAt(o, i, j)
+MatOffsets == IF Mode = "exh" THEN {} ELSE 0..2
+
 (* ------------------------------------- machine ------------------------------------------ *)
 VARIABLES pc,    \* 0 idle, 1..Len(Sh) next cascade step, -1 returned
           call,  \* [op, u, v]
@@ -125,11 +150,18 @@ CallErr(u, v) == /\ pc = 0
                  /\ call' = [op |-> "err", u |-> u, v |-> v]
                  /\ ret' = ErrCode(u, v) /\ pc' = -1 /\ UNCHANGED t
 
+CallErrMat(o, layout, axis) ==
+  /\ pc = 0
+  /\ call' = [op |-> "errmat", u |-> Zero, v |-> Zero, o |-> o, layout |-> layout, axis |-> axis]
+  /\ ret' = AxisSums([i \in 1..2 |-> [j \in 1..3 |-> CodeCount(o, layout, i, j)]], axis)
+  /\ pc' = -1 /\ UNCHANGED t
+
 \* the guard pc = 0 stands outside the quantifiers so that TLC does not enumerate the domain in
 \* every cascade state
 Calls == /\ pc = 0
          /\ \/ \E v \in Domain : CallB2G(v) \/ CallG2B(v)
             \/ \E p \in PairDomain : CallErr(p[1], p[2])
+            \/ \E o \in MatOffsets : \E layout \in {"C", "F"} : \E axis \in {-1, 0, 1} : CallErrMat(o, layout, axis)
 Next == Calls \/ Step \/ Return
 
 (* ------------------------------------ properties ---------------------------------------- *)
@@ -159,6 +191,10 @@ CascadeLoopInv ==
 \* bit-error count = Hamming distance
 HammingLaw == Done("err") => ret = Ham(call.u, call.v)
 
+\* arrays: the counts are taken position by position (logical index) and summed along the axis, whatever the memory layout
+AxisLaw == Done("errmat") =>
+  ret = AxisSums([i \in 1..2 |-> [j \in 1..3 |-> CountAt(call.o, i, j)]], call.axis)
+
 \* the count does not depend on the order of the two operands
 SymmetryLaw == Done("err") => ret = ErrCode(call.v, call.u)
 
@@ -173,13 +209,17 @@ Additive ==
 
 TypeOK == /\ pc \in -1..(Len(Sh) + 1)
           /\ t \in [Idx -> {0, 1}]
-          /\ call.op \in {"none", "b2g", "g2b", "err"}
+          /\ call.op \in {"none", "b2g", "g2b", "err", "errmat"}
 
 (* ------------------------------------- emission ----------------------------------------- *)
 \* widths that fit a TLC integer are printed as integers, wider vectors as sequences of bits (least
 \* significant first; Python rebuilds the int)
 Enc(x) == IF W <= 30 THEN ToInt(x) ELSE x
-Emit == IF pc' = -1
+EncMat(m) == [i \in 1..2 |-> [j \in 1..3 |-> Enc(m[i][j])]]
+Emit == IF pc' = -1 /\ call'.op = "errmat"
+        THEN EmitCase([op |-> "errmat", w |-> W, u |-> EncMat(MatU(call'.o)), v |-> EncMat(MatV(call'.o)),
+                       layout |-> call'.layout, axis |-> call'.axis, ret |-> ret'])
+        ELSE IF pc' = -1
         THEN EmitCase([op |-> call'.op, w |-> W, u |-> Enc(call'.u), v |-> Enc(call'.v),
                        ret |-> IF call'.op = "err" THEN ret' ELSE Enc(ret')])
         ELSE TRUE
